@@ -172,6 +172,15 @@ def run(prop, tier):
     if not cases:
         raise NoVerdict("the model exported no history")
     plan_cases = [case_to_plan(i, c) for i, c in enumerate(cases)]
+    # histories of several runs are replayed twice: every run in a new process image (fresh handler objects, new forwarded
+    # connection) and all runs through ONE regular.Handler object over ONE connection ("u" = reuse)
+    expect = {pc["id"]: c for pc, c in zip(plan_cases, cases)}
+    step = 1 if (tier == "quick" or prop in ("C01", "C02")) else 2
+    for pc, c in list(zip(plan_cases, cases))[::step]:
+        if len(c["runs"]) > 1:
+            pu = dict(pc, id=pc["id"] + "u", reuse=True)
+            plan_cases.append(pu)
+            expect[pu["id"]] = c
 
     # 2. the real code: every exported history (A) and seeded random histories (B)
     binp = build_for(prop)
@@ -190,15 +199,15 @@ def run(prop, tier):
     # strict comparison of direction A with the model's expectation (drift is a warning, TLC judges the properties)
     drift = []
     labels = set()
-    for i, c in enumerate(cases):
-        t = by_id["a%d" % i]
+    for cid, c in expect.items():
+        t = by_id[cid]
         for j, run_ in enumerate(c["runs"]):
             got = t[1 + j]
             exp = summary(run_["r"], run_["post"])
             obs = summary(got["e"]["r"], got["post"]["ag"])
             labels.add(json.dumps([run_["sc"]["hs"], exp["err"], exp["fr"], exp["csr"]]))
             if exp != obs:
-                drift.append({"case": "a%d" % i, "run": j + 1, "expected": exp, "observed": obs})
+                drift.append({"case": cid, "run": j + 1, "expected": exp, "observed": obs})
     for t in traces:
         for s in t[1:]:
             labels.add(json.dumps([s["e"]["sc"]["hs"], s["e"]["r"]["err"], [[f["k"], f["f"]] for f in s["e"]["r"]["fr"]], len(s["e"]["r"]["csr"])]))
@@ -220,8 +229,8 @@ def run(prop, tier):
                          "post": sorted(x["t"] + "/" + x["lb"] + "/" + x["cls"] for x in s["post"]["ag"])} for s in t[1:]])
     cov = {"states": states, "transitions": trans, "depth": depth, "traces_validated_against_impl": len(traces),
            "samples": samples, "exhaustive": True, "model_cfg": cfg,
-           "exported_histories": len(cases), "replayed_runs_A": sum(len(c["runs"]) for c in cases),
-           "random_cases_B": nrand, "random_runs_B": nsteps - sum(len(c["runs"]) for c in cases),
+           "exported_histories": len(cases), "replayed_histories_A": len(plan_cases), "replayed_runs_A": sum(len(c["runs"]) for c in expect.values()),
+           "random_cases_B": nrand, "random_runs_B": nsteps - sum(len(c["runs"]) for c in expect.values()),
            "evaluations": nsteps, "distinct_nontrivial": len(labels), "challenges_recorded": nchal,
            "rule": "every finished history of the bounded model is replayed on the real gensign.Run and every recorded run (A and B) is judged by "
                    "TLC with %s_Run; distinct_nontrivial = distinct (handler list, error kind, agent frame/fault sequence, signer calls) outcomes observed" % prop,
